@@ -13,7 +13,7 @@ for path in sys.argv[1:]:
         if not m:
             continue
         sid, chk, secs, rc, rest = m.groups()
-        cond = re.search(r"\(condition ([^:]+):", rest)
+        cond = re.search(r"\(condition (.+?): ", rest)
         rows[sid] = dict(check=chk, seconds=int(secs), exit=int(rc), condition=cond.group(1) if cond else None,
                          outcome={"1": "detected", "0": "missed", "2": "inconclusive"}.get(rc, "error"))
 for sid, r in sorted(rows.items()):
